@@ -115,13 +115,13 @@ func runC05(c *Ctx) {
 	}
 
 	type sendRec struct {
-		kind     string // send | broadcast | filtered
-		nonce    string
-		target   []string // session ids selected
-		err      error
-		count    int
-		failed   int
-		task     int
+		kind   string // send | broadcast | filtered
+		nonce  string
+		target []string // session ids selected
+		err    error
+		count  int
+		failed int
+		task   int
 	}
 	var recs []*sendRec
 	sizes := []int{0, 0, 100, 5000}
@@ -442,15 +442,28 @@ func c05Legacy(c *Ctx) {
 	type rec struct {
 		nonce, sid string
 		err        error
+		task       int
 	}
 	var recs []*rec
 	var tasks []*sim.Task
+	// burst variant: the peer stops reading for a while and one sender outruns the per-session queue
+	burst := t.Bool(25)
+	c.SetPlan("burst", burst)
+	if burst {
+		s.Net.Stall(3 * time.Second)
+	}
 	for k := 0; k < 1+t.Draw(2); k++ {
 		n := 1 + t.Draw(4)
+		if burst {
+			n = 110 + t.Draw(120)
+		}
 		tasks = append(tasks, s.Go(fmt.Sprintf("sender%d", k), func() {
 			for i := 0; i < n; i++ {
 				se := sess[c.T.Draw(len(sess))]
-				r := &rec{nonce: c.Nonce("x"), sid: se.sid}
+				if burst {
+					se = sess[0]
+				}
+				r := &rec{nonce: c.Nonce("x"), sid: se.sid, task: k}
 				r.err = w.SSE.SendNotification(se.sid, "notifications/verif", map[string]interface{}{"nonce": r.nonce})
 				c.mu.Lock()
 				recs = append(recs, r)
@@ -500,6 +513,7 @@ func c05Legacy(c *Ctx) {
 	for _, a := range s.WaitTasks(30*time.Minute, tasks...) {
 		s.Violate("C05|stuck|legacy", "%s did not finish", a.Name)
 	}
+	s.Net.Unstall()
 	s.Settle(50 * time.Millisecond)
 	// wire: which legacy stream carries which nonce; map stream -> session id through the endpoint event
 	streamOf := map[string]string{}
@@ -544,10 +558,36 @@ func c05Legacy(c *Ctx) {
 			s.Violate("C05|leak|legacy", "notification %s for session %s appeared on the stream of session %s", r.nonce, r.sid, wrong)
 		}
 		if r.err != nil {
-			s.Violate("C05|send-failed|legacy|"+errWord(r.err), "SSEServer.SendNotification to a connected, initialized session failed: %v", r.err)
+			if !(burst && strings.Contains(r.err.Error(), "channel full")) { // a bounded queue may refuse while the peer does not read
+				s.Violate("C05|send-failed|legacy|"+errWord(r.err), "SSEServer.SendNotification to a connected, initialized session failed: %v", r.err)
+			}
+			if n != 0 {
+				s.Probe("c05.legacy_refused_but_delivered")
+			}
 		} else if n != 1 {
 			s.Violate("C05|lost|legacy", "SendNotification(%s) returned success but it is on the session's stream %d times", r.nonce, n)
 		}
+	}
+	// sending order per sender and session
+	for key, list := range byStream {
+		pos := map[string]int{}
+		for i, n := range list {
+			pos[n] = i
+		}
+		last := map[int]int{}
+		for _, r := range recs {
+			p, ok := pos[r.nonce]
+			if !ok || streamOf[key] != r.sid {
+				continue
+			}
+			if lp, seen := last[r.task]; seen && p < lp {
+				s.Violate("C05|order|legacy", "session %s: notification %s of sender %d was delivered before an earlier one of the same sender (wire positions %d < %d)", r.sid, r.nonce, r.task, p, lp)
+			}
+			last[r.task] = p
+		}
+	}
+	if burst {
+		s.Probe("c05.legacy_burst")
 	}
 	for _, rr := range rootsRecs {
 		if rr.err != nil || !strings.HasPrefix(rr.got, "roots:") {
